@@ -670,11 +670,41 @@ class C16(Property):
     id = "C16"
     title = "validation messages expand completely under every lookup source and locale"
     proof_module = "Proofs.C16"
-    theorems = []
-    generated_obligations = []
+    theorems = ["Flatland.C16.Proofs." + t for t in (
+        "priority_partial", "priority_first_defined", "priority_none_defined", "C16_full_fails",
+        "plural_choice", "plural_missing_count", "ungettext_receives_count",
+        "findTransformer_eq_spec", "transformer_full_fails", "translator_applied",
+        "expand_plain_refines", "expand_plural_refines",
+        "expand_total", "no_percent_left",
+        "builtin_expand_total", "catalogue_expand_total")]
+    generated_obligations = ["Flatland.C16.Proofs." + t for t in (
+        "catalogues_listed", "catalogue_placeholders", "catalogue_complete", "builtin_keys_supplied",
+        "builtin_no_escape")]
     quick_n = 4000
     thorough_n = 150000
-    rule = ""
+    trusted_base = [
+        "Python's `str % mapping` modelled for the fragment %(key)s / %% only (other conversions are reported as Unsupported and not compared)",
+        "int(str) modelled for ASCII digits/sign/underscores/whitespace (no Unicode digits, no 4300-digit limit)",
+        "gettext .mo loading is external: the model uses the .po text; the extractor checks .mo == .po with the real gettext module on every run",
+        "translators are harness-supplied text->text functions (non-text values pass through, as GNUTranslations.gettext does)",
+        "attribute lookup on real objects (instance over class attributes) is Python's; the model is told the resolved attributes of the case",
+    ]
+    assumptions = [
+        "keys used in templates are drawn from a pool that avoids attributes the harness does not describe (dict methods on the keyword dict / a dict state, Element API names other than label/name/value/u)",
+        "`.value`/`.u` of container elements are kept out of generated templates",
+    ]
+    level_text = "proof"
+    level_note = ("proved for all inputs on model A: source priority (partial: KF-C16-a), plural choice, translator search (partial: D-C16-1) and "
+                  "application, refinement of expand_message to the documented expansion, total expansion; the catalogue/template theorems are "
+                  "instantiated by `decide` on tables regenerated from /repo on every run.  The tie model<->code is differential (correspondence).")
+    technique = "Lean 4 model + theorems; regenerated tables (translator route) + differential correspondence + Python oracle with real gettext"
+    rule = ("synthetic validators: each of 8 keys defined by a random subset of the five documented sources with distinct values; plain and plural "
+            "messages with counts from {0,1,2,5,-1,'1',' 1 ','+1','01','1_0',True,False,None,100,non-numbers}; translators (tagging, table, None) "
+            "placed on state attr/item, element instance/class, up to 3 ancestors, builtins; hostile stream: malformed templates, list state, "
+            "Mapping element with children named like keys, non-numeric counts, unsupported conversions.  Exhaustive: all 2^5 definedness "
+            "patterns x {fresh key, label} x {no translator, builtins translator}.  Built-in stream: every failing built-in validator scenario x "
+            "{source,de,es,fr} x translator placement.  non-trivial = an expansion was produced and the message uses at least one key")
+    exhaustive_note = "all 2^5 patterns of which documented source defines the key, for a fresh key and for `label`, with and without a builtins translator"
 
     def corpus(self):
         out = []
